@@ -327,11 +327,23 @@ fn judge_step(
     fails
 }
 
+/// Version numbers are the client's: the result must follow the contents whatever they are
+/// (a document closed and opened again starts at 1 again; the server does not see the close).
+pub const VERSION_POLICIES: [&str; 3] = ["increasing", "decreasing", "constant"];
+fn version_of(policy: usize, i: usize) -> i64 {
+    match policy {
+        1 => 100 - i as i64,
+        2 => 1,
+        _ => 10 + i as i64,
+    }
+}
+
 fn run_history(
     hist: &[Event],
     order: &Option<Vec<usize>>,
     oracle: &Mutex<HashMap<(Contents, usize, String), Result<DiagSet, String>>>,
     judge_all: bool,
+    versions: usize,
 ) -> (TransitionResult, Contents) {
     let mut s = MemSrv::new(order.clone());
     let mut c: Contents = [None, None];
@@ -339,7 +351,7 @@ fn run_history(
     let mut failures = vec![];
     let mut prefix_failed = false;
     for (i, e) in hist.iter().enumerate() {
-        let version = 10 + i as i64;
+        let version = version_of(versions, i);
         let obs = s.step(&e.msg(version));
         let mut f = judge_step(e, version, &c, &obs, order, oracle);
         // conformance of the server state with the reference model: the text the server
@@ -432,7 +444,7 @@ pub fn run(ctx: &mut Ctx) {
     let thorough = ctx.tier.thorough();
     let evs = alphabet(thorough);
     let max_len = if thorough { 4 } else { 3 };
-    ctx.rule = "state = Debug rendering of every Source held by the real server (file id, text, memoised parse result) = complete server state; transition = one didOpen/didChange sent to a fresh real server that replayed the shortest history of the source state; distinct = distinct (state, event) pairs; plus every history up to the length bound without de-duplication".into();
+    ctx.rule = "state = Debug rendering of every Source held by the real server (file id, text, memoised parse result) = complete server state; transition = one didOpen/didChange sent to a fresh real server that replayed the shortest history of the source state; distinct = distinct (state, event) pairs; plus every history up to the length bound without de-duplication, each with increasing, decreasing and constant version numbers (lengths <= 3)".into();
     ctx.bounds.insert("uris".into(), json!(2));
     ctx.bounds.insert("texts".into(), json!(TEXTS.iter().map(|t| t.0).collect::<Vec<_>>()));
     ctx.bounds.insert("events".into(), json!(evs.len()));
@@ -463,7 +475,7 @@ pub fn run(ctx: &mut Ctx) {
                 .map(|e| {
                     let mut hist = h.clone();
                     hist.push(e.clone());
-                    let (r, c) = run_history(&hist, order, &oracle, false);
+                    let (r, c) = run_history(&hist, order, &oracle, false, 0);
                     (e.clone(), r, c)
                 })
                 .collect();
@@ -538,19 +550,24 @@ pub fn run(ctx: &mut Ctx) {
             }
         }
         let hist_orders: Vec<&Option<Vec<usize>>> = if thorough || len <= 2 { orders.iter().collect() } else { vec![&orders[0]] };
-        for order in hist_orders {
-            let fails: Vec<(Vec<Event>, Vec<(String, String)>, String)> = next
-                .par_iter()
-                .map(|h| {
-                    let (r, _) = run_history(h, order, &oracle, false);
-                    (h.clone(), r.failures, render_obs(&r.obs))
-                })
-                .collect();
-            for (h, f, o) in fails {
-                hist_count += 1;
-                outcomes.insert(o.replace(|ch: char| ch.is_ascii_digit(), "#"));
-                for (k, w) in f {
-                    ctx.fail(&k, &w, json!({"mode":"history","order":order_name(order),"history": h.iter().map(|x| x.name()).collect::<Vec<_>>()}));
+        for (oi, order) in hist_orders.into_iter().enumerate() {
+            // every version policy with the first file order; the other file order with increasing versions
+            let policies: Vec<usize> = if oi == 0 && len <= 3 { vec![0, 1, 2] } else { vec![0] };
+            for pol in policies {
+                let fails: Vec<(Vec<Event>, Vec<(String, String)>, String)> = next
+                    .par_iter()
+                    .map(|h| {
+                        let (r, _) = run_history(h, order, &oracle, false, pol);
+                        (h.clone(), r.failures, render_obs(&r.obs))
+                    })
+                    .collect();
+                for (h, f, o) in fails {
+                    hist_count += 1;
+                    outcomes.insert(o.replace(|ch: char| ch.is_ascii_digit(), "#"));
+                    for (k, w) in f {
+                        let k = if pol == 0 { k } else { format!("versions-{}/{}", VERSION_POLICIES[pol], k) };
+                        ctx.fail(&k, &w, json!({"mode":"history","order":order_name(order),"versions":VERSION_POLICIES[pol],"history": h.iter().map(|x| x.name()).collect::<Vec<_>>()}));
+                    }
                 }
             }
         }
@@ -726,7 +743,8 @@ pub fn replay(case: &Value) -> Result<String, String> {
         _ => Some(vec![0, 1]),
     };
     let oracle = Mutex::new(HashMap::new());
-    let (r, c) = run_history(&hist, &order, &oracle, true);
+    let pol = VERSION_POLICIES.iter().position(|p| Some(*p) == case["versions"].as_str()).unwrap_or(0);
+    let (r, c) = run_history(&hist, &order, &oracle, true, pol);
     if r.failures.is_empty() {
         Ok(format!("holds; final contents {}; last observation {}", contents_name(&c), render_obs(&r.obs)))
     } else {
